@@ -65,7 +65,7 @@ New(mt, nz, keys) ==
 ZoneOfKey(S, k) == k % S.nz              \* hash_fn(key) & hashmask; the driver's hash_fn is congruent to the key
 
 (* ---- recursive zone mutex (pthread PTHREAD_MUTEX_RECURSIVE): unlock by a non-owner is EPERM and changes nothing *)
-CanLock(S, t, z) == ~S.mt \/ S.own[z] \in {None, t}
+CanLock(S, t, z) == IF S.mt THEN S.own[z] \in {None, t} ELSE TRUE   \* (no disjunction: TLC would split the action)
 Lock(S, t, z) == IF ~S.mt THEN S ELSE [S EXCEPT !.own[z] = t, !.dep[z] = @ + 1]
 Unlock(S, t, z) ==
   IF ~S.mt \/ S.own[z] # t THEN S
@@ -143,6 +143,21 @@ Destroy(S) ==
 ELockZone(S, e) == S.ez[e]
 ELock(S, t, e) == IF S.ez[e] = NoZone THEN S ELSE Lock(S, t, S.ez[e])
 EUnlock(S, t, e) == IF S.ez[e] = NoZone THEN S ELSE Unlock(S, t, S.ez[e])
+
+(* ---- number of lock / unlock calls on zone mutexes a call makes (what is done under which mutex: the driver counts
+        the real pthread calls).  c: [op, t, a, b, c] as in MC_HbApi!CallsOf; found / nrm / nzones: outcome of the call *)
+LockOps(S, op, fl, found, intable, nrm, nzones) ==
+  IF ~S.mt THEN << 0, 0 >>
+  ELSE CASE op = "get" -> << IF Has(fl, GET_NO_LOCK) THEN 0 ELSE 1,
+                             IF found THEN (IF Has(fl, GET_S_UNLOCK) THEN 1 ELSE 0) ELSE (IF Has(fl, GET_F_LOCK) THEN 0 ELSE 1) >>
+         [] op = "add" -> << IF Has(fl, ADD_NO_LOCK) THEN 0 ELSE 1, IF Has(fl, ADD_NO_UNLOCK) THEN 0 ELSE 1 >>
+         [] op = "rm" -> IF intable THEN << 1, 1 >> ELSE << 0, 0 >>
+         [] op = "zlock" -> << 1, 0 >>
+         [] op = "zunlock" -> << 0, 1 >>
+         [] op = "elock" -> IF intable THEN << 1, 0 >> ELSE << 0, 0 >>
+         [] op = "eunlock" -> IF intable THEN << 0, 1 >> ELSE << 0, 0 >>
+         [] op \in {"zenum", "enum", "destroy"} -> << nzones + nrm, nzones + nrm >>
+         [] OTHER -> << 0, 0 >>
 
 (* ---- state predicates *)
 InTable(S) == UNION {RangeOf(S.zl[z]) : z \in ZonesOf(S)}
